@@ -146,7 +146,10 @@ func corpus() []prog {
 func body(p prog, maxK int) func() {
 	defs := p.g.Parse()
 	return func() {
-		k := verifrt.Choose(maxK + 1)
+		// cancellation points: k = 0..maxK traces received; maxK+1: before StartAll is called;
+		// maxK+2: from another goroutine, concurrently with StartAll
+		k := verifrt.Choose(maxK + 3)
+		pre, conc := k == maxK+1, k == maxK+2
 		r := drv.Open(p.g, defs, drv.OpenOpts{Vars: p.vars, Timer: p.timer, SubCap: 1})
 		cancelled := false
 		cancelSeq := -1
@@ -180,7 +183,15 @@ func body(p prog, maxK int) func() {
 			}
 			w = r.WaitComplete(r.Ctx)
 		}
+		if pre {
+			cancelled = true
+			r.Cancel()
+		}
 		r.StartAll()
+		if conc {
+			cancelled = true
+			go r.Cancel()
+		}
 		verifrt.WaitIdle()
 		if !cancelled {
 			cancelled = true
@@ -190,6 +201,12 @@ func body(p prog, maxK int) func() {
 		}
 		sig := "C07/" + p.name
 		where := fmt.Sprintf("cancel after %d traces (of %d received)", k, r.NTraces)
+		if pre {
+			where = fmt.Sprintf("cancel before StartAll (%d traces received)", r.NTraces)
+		}
+		if conc {
+			where = fmt.Sprintf("cancel concurrently with StartAll (%d traces received)", r.NTraces)
+		}
 		if !r.StartReturned {
 			h.Fail(sig+"/startall-returns", "%s: StartAll has not returned; live: %v", where, verifrt.LiveRepoGoroutines())
 			return
@@ -209,7 +226,7 @@ func body(p prog, maxK int) func() {
 		default:
 		}
 		if !done {
-			h.Fail(sig+"/tracer-terminates", "%s: the instance's tracer is not done; live: %v", where, verifrt.LiveRepoGoroutines())
+			h.Fail(sig+"/tracer-terminates", "%s: the instance's tracer is not done; live: %v; channels: %v", where, verifrt.LiveRepoGoroutines(), verifrt.DebugChannels())
 			return
 		}
 		if !r.ReaderDone {
@@ -217,7 +234,7 @@ func body(p prog, maxK int) func() {
 			return
 		}
 		for _, t := range r.Tasks {
-			if t.Seq > cancelSeq && cancelSeq >= 0 && t.CtxErr == nil {
+			if t.Seq > cancelSeq && (cancelSeq >= 0 || pre) && t.CtxErr == nil {
 				h.Fail(sig+"/late-task-cancelled-context", "%s: TaskTrace(%s) at stream position %d after the cancel carries a live context", where, t.ID, t.Seq)
 				return
 			}
